@@ -1534,6 +1534,15 @@ class DocutilsRenderer(RendererProtocol):
                 line=token_line(token),
                 append_to=self.current_node,
             )
+            # only the duplicate itself is omitted,
+            # not the definitions of other footnotes nested in its body
+            pending = list(token.children)
+            while pending:
+                child = pending.pop(0)
+                if child.type == "footnote_reference":
+                    self.render_footnote_reference(child)
+                else:
+                    pending[:0] = child.children
             return
 
         footnote = nodes.footnote()
